@@ -14,7 +14,9 @@ PROPS_MODULE = 'SympdeModel.Props.C04'
 RULE = ('a case is (patch layout, mapping type(s), region, integrand): single patches in 1-D/2-D/3-D with symbolic, polynomial '
         '(orientation preserving / reversing), catalogue and surface (3 components, 2 logical directions) mappings; regions are '
         'the interior and every face (axis, side); two- and three-patch domains whose patches carry different mappings, '
-        'integrated over the whole domain and over its whole boundary; non-trivial = the mapping is not the identity; '
+        'integrated over the whole domain and over its whole boundary; volume-preserving mappings that are no isometries '
+        '(unimodular affine, polynomial shears); catalogue mappings set up again under the same name with other parameter '
+        'values in one process (oracle); non-trivial = the mapping is not the identity; '
         'distinct by request line')
 ASSUMPTIONS = [
     'the change-of-variables theorem itself (integral over F(P) of f = integral over P of (f∘F)·sqrt(det(JᵀJ))) is classical '
